@@ -20,7 +20,7 @@ from ..gen import c11_gen as GEN
 
 PID = "C11"
 COQ_HEADER = ("From Coq Require Import List NArith ZArith.\nImport ListNotations.\n"
-              "From SK Require Import lib.Tok lib.LGraph model.C11_Model model.C11_State model.C11_Partial.\nLocal Open Scope N_scope.\n")
+              "From SK Require Import lib.Tok lib.LGraph model.C11_Model model.C11_State model.C11_Partial model.C11_Keys.\nLocal Open Scope N_scope.\n")
 SHARD = 100
 IMPL_TIMEOUT = 600
 COQ_TIMEOUT = 600
@@ -131,15 +131,42 @@ def _lab_keys(a, nk):
     return _lab_a(a) if nk is None else json.dumps([GG._js(a.get(k, _dflt(k))) for k in nk], default=str)
 
 
-def _coq_graph(g, nk=None):
+def _jv(v):
+    """attribute value for interning: numbers compare as Python does (1 == 1.0)"""
+    if isinstance(v, (int, float)) and not isinstance(v, bool):
+        return float(v)
+    return GG._js(v)
+
+
+def _keysets(nk, ek):
+    """(keys the exact analysis compares on, keys the second estimate labels with): an empty / absent list means the
+    defaults for Automorphism (truth test in its constructor) and NO label for AutoEst (only None means the defaults)"""
+    nkx = list(nk) if nk else ["element", "charge"]
+    ekx = list(ek) if ek else ["order"]
+    nkw = ["element", "charge"] if nk is None else list(nk)
+    ekw = ["order"] if ek is None else list(ek)
+    return nkx, ekx, nkw, ekw
+
+
+def _nlab(a, keys):
+    return tuple(_jv(a.get(k, _dflt(k))) for k in keys)
+
+
+def _elab(a, keys):
+    return tuple(_jv(a.get(k, 1.0)) for k in keys)
+
+
+def _coq_graph(g, nk=None, ek=None):
     """lgraph (N*N*N) (N*N): node label (exact-analysis label, WL label, full label); edge label (order code, full code).
     Order codes are monotone in the order value (AutoEst sorts neighbour signatures)."""
-    ia, iw, ifl, ie = GG.Intern(), GG.Intern(), GG.Intern(), GG.Intern()
+    ia, iw, ifl, ie, iek = GG.Intern(), GG.Intern(), GG.Intern(), GG.Intern(), GG.Intern()
     orders = sorted({GG.half(_order(a)) for _, _, a in g["edges"]})
     return GG.coq_lgraph(
         g,
-        lambda n, a: "(%s, %s, %s)" % (cN(ia(_lab_keys(a, nk))), cN(iw(_lab_w(a))), cN(ifl(_lab_f(a)))),
-        lambda u, v, a: "(%s, %s)" % (cN(orders.index(GG.half(_order(a)))), cN(ie(_lab_e(a)))))
+        lambda n, a: "(%s, %s, %s)" % (cN(ia(_lab_keys(a, nk) if nk is None or nk == ["element", "charge"] else json.dumps(_nlab(a, nk), default=str))),
+                                       cN(iw(_lab_w(a))), cN(ifl(_lab_f(a)))),
+        lambda u, v, a: "(%s, %s)" % (cN(orders.index(GG.half(_order(a)))) if ek is None or ek == ["order"]
+                                      else cN(iek(json.dumps(_elab(a, ek), default=str))), cN(ie(_lab_e(a)))))
 
 
 def _coq_maps(ms):
@@ -175,6 +202,31 @@ def _aut_obs(G, nk=None):
 
 def _impl_aut(case):
     return _aut_obs(GG.to_nx(case["g"]))
+
+
+def _aut_obs_keys(G, nk, ek):
+    """the same for an arbitrary key configuration (model: C11_Keys.run_aut_keys): Automorphism(G, nk, ek) - constructed
+    with keywords or positionally -, the 4-attribute estimate with its fixed keys, a second estimate AutoEst(G, nk, ek)"""
+    from synkit.Graph.Matcher.automorphism import Automorphism
+    from synkit.Graph.Matcher.auto_est import AutoEst
+    pos = bool(nk) and nk[0] == "charge"
+    A = Automorphism(G, nk, tuple(ek) if ek is not None else None) if pos else Automorphism(G, node_attr_keys=nk, edge_attr_keys=ek)
+    anchor = A.anchor_component
+    out = [[A.n_automorphisms, S([S(sorted(o)) for o in A.orbits]), [S(sorted(c)) for c in A.components],
+            [] if anchor is None else [S(sorted(anchor))]]]
+    for attrs, eattrs in ((WL_ATTRS4, ["order"]), (nk, ek)):
+        rounds = []
+        for k in WL_ITERS:
+            est = (AutoEst(G, attrs, eattrs, k) if pos else AutoEst(G, node_attrs=attrs, edge_attrs=eattrs, max_iter=k)).fit()
+            col = est.node_colors
+            rounds.append([col[n] for n in G.nodes()])
+        out.append([rounds, [sorted(o) for o in est.orbits], sorted(est.anchor_component)])
+    return out + [True, _impl_vf2(G, A)]
+
+
+def _coq_keys(g, nk, ek):
+    nkx, ekx, nkw, ekw = _keysets(nk, ek)
+    return "run_aut_keys %s %s %s" % (_coq_graph(g), _coq_graph(g, nkx, ekx), _coq_graph(g, nkw, ekw))
 
 
 def _matcher(A, sub):
@@ -516,7 +568,8 @@ def _impl_hist(case):
         for st in case["steps"]:
             lazy = Automorphism(G) if st.get("edit") else None
             _edit_nx(G, st.get("edit", []))
-            out.append([_aut_obs(G, st.get("nk")), _reuse_flags(G, E_old, lazy)])
+            obs = _aut_obs_keys(G, st.get("nk"), st.get("ek")) if ("ek" in st or st.get("nk") == []) else _aut_obs(G, st.get("nk"))
+            out.append([obs, _reuse_flags(G, E_old, lazy)])
             reads.append([A_kept.n_automorphisms, S([S(sorted(o)) for o in A_kept.orbits])])
             col = E_kept.fit().node_colors
             refits.append([[col[n] for n in G.nodes()]])
@@ -533,7 +586,8 @@ def _coq_hist(case):
         for st, g in zip(case["steps"], hist_graphs(case)):
             if not _in_domain(g):
                 return None
-            terms.append("L [run_aut_wf %s; tlist tbool [%s]]" % (_coq_graph(g, st.get("nk")), "; ".join(["true"] * N_FLAGS)))
+            t = _coq_keys(g, st.get("nk"), st.get("ek")) if ("ek" in st or st.get("nk") == []) else "run_aut_wf %s" % _coq_graph(g, st.get("nk"))
+            terms.append("L [%s; tlist tbool [%s]]" % (t, "; ".join(["true"] * N_FLAGS)))
         return "L [L [%s]; run_objects [%s]]" % ("; ".join(terms), "; ".join(_coq_graph(g) for g in hist_graphs(case)))
     if case["script"] == "prune":
         terms = []
@@ -555,10 +609,10 @@ def _oracle_hist(case):
         E_old = AutoEst(G).fit()
         for k, (st, g) in enumerate(zip(case["steps"], hist_graphs(case))):
             _edit_nx(G, st.get("edit", []))
-            for f in _oracle_aut_g(g, st.get("nk"), G=G):
+            for f in _oracle_aut_g(g, st.get("nk"), G=G, ek=st.get("ek")):
                 fails.append(dict(f, detail="step %d: %s" % (k, f["detail"])))
             col = E_old.fit().node_colors            # an estimator object that existed before the edit, fitted again
-            for o in _true_orbits(g, lambda a: (a.get("element", "*"), a.get("charge", 0))):
+            for o in _true_orbits(g, lambda a: _nlab(a, ["element", "charge"])):
                 if len({col.get(n) for n in o}) != 1:
                     fails.append(dict(clause="wl-coarser", detail="step %d: re-fitted estimator: true orbit %r gets WL colours %r"
                                                                   % (k, o, [col.get(n) for n in o])))
@@ -586,6 +640,8 @@ def impl(case):
         return [[[res[:N_OLD], True, True]] + res[N_OLD:N_OLD + 8], [0, _indices(raw, kept)]] + res[N_OLD + 8:] + [_idempotent_flags(case)]
     if k == "hist":
         return _impl_hist(case)
+    if k == "keys":
+        return _aut_obs_keys(GG.to_nx(case["g"]), case["nk"], case["ek"])
     if k == "prune":
         return _impl_prune(case)    # + rule centre well-formed, matches defined on its nodes, every raw match represented
     raise AssertionError(k)
@@ -675,6 +731,8 @@ def coq_case(case):
     k = case["kind"]
     if k == "hist":
         return _coq_hist(case)
+    if k == "keys":
+        return _coq_keys(case["g"], case["nk"], case["ek"]) if _in_domain(case["g"]) else None
     if k == "aut":
         if not _in_domain(case["g"]):
             return None
@@ -813,11 +871,11 @@ def _components(g):
     return list(cl.values())
 
 
-def _true_orbits(g, labf):
+def _true_orbits(g, labf, elabf=None):
     """orbits of the FULL label-preserving automorphism group (component swaps included), by pairwise search."""
     nodes = [n for n, _ in g["nodes"]]
     lab = {n: labf(a) for n, a in g["nodes"]}
-    adj = _adj(g, _order)
+    adj = _adj(g, elabf or _order)
     rep = {}
     classes = []
     for u in nodes:
@@ -834,22 +892,20 @@ def _oracle_aut(case):
     return _oracle_aut_g(case["g"])
 
 
-def _oracle_aut_g(g, nk=None, G=None):
-    """the property on one graph; nk = node attribute keys given to Automorphism and to the second estimate (None = defaults);
-    G = the nx object to analyse (history cases: the shared, edited object) - default: a fresh one built from g"""
+def _oracle_aut_g(g, nk=None, G=None, ek=None):
+    """the property on one graph, for the key configuration (nk, ek) given to Automorphism and to the second estimate: brute
+    force on the CONFIGURED labels only (None = defaults; an empty list = defaults for the exact analysis, no label for the
+    estimate); G = the nx object to analyse (history cases: the shared, edited object) - default: a fresh one built from g"""
     from synkit.Graph.Matcher.automorphism import Automorphism
     from synkit.Graph.Matcher.auto_est import AutoEst
     from synkit.Graph.Matcher.orbit import OrbitAccuracy
     if G is None:
         G = GG.to_nx(g)
     fails = []
-    if nk is None:
-        A = Automorphism(G)
-        lab = {n: (a.get("element", "*"), a.get("charge", 0)) for n, a in g["nodes"]}
-    else:
-        A = Automorphism(G, node_attr_keys=list(nk), edge_attr_keys=["order"])
-        lab = {n: tuple(GG._js(a.get(k, _dflt(k))) for k in nk) for n, a in g["nodes"]}
-    adj = _adj(g, lambda a: a.get("order", 1.0))
+    nkx, ekx, nkw, ekw = _keysets(nk, ek)
+    A = Automorphism(G) if (nk is None and ek is None) else Automorphism(G, node_attr_keys=nk, edge_attr_keys=ek)
+    lab = {n: _nlab(a, nkx) for n, a in g["nodes"]}
+    adj = _adj(g, lambda a: _elab(a, ekx))
     comps = _components(g)
     cnt, classes = 1, set()
     for c in comps:
@@ -865,12 +921,11 @@ def _oracle_aut_g(g, nk=None, G=None):
         fails.append(dict(clause="orbits-exact", detail="orbits %r, brute force %r" % (sorted(map(sorted, got)), sorted(map(sorted, classes)))))
     if sorted(map(sorted, A.components)) != sorted(map(sorted, comps)):
         fails.append(dict(clause="components", detail="components %r vs %r" % (A.components, comps)))
-    nk2 = ["element", "charge"] if nk is None else list(nk)
-    for attrs, labf in ((WL_ATTRS4, lambda a: tuple(a.get(k, _dflt(k)) for k in WL_ATTRS4)),
-                        (None if nk is None else nk2, lambda a: tuple(a.get(k, _dflt(k)) for k in nk2))):
-        est = AutoEst(G, node_attrs=attrs, edge_attrs=["order"]).fit()
+    for attrs, eattrs, labf, elabf in ((WL_ATTRS4, ["order"], lambda a: _nlab(a, WL_ATTRS4), lambda a: _elab(a, ["order"])),
+                                       (nk, ek, lambda a: _nlab(a, nkw), lambda a: _elab(a, ekw))):
+        est = AutoEst(G, node_attrs=attrs, edge_attrs=eattrs).fit()
         col = est.node_colors
-        truth = _true_orbits(g, labf)
+        truth = _true_orbits(g, labf, elabf)
         for o in truth:
             if len({col[n] for n in o}) != 1:
                 fails.append(dict(clause="wl-coarser", detail="attrs=%r: true orbit %r gets WL colours %r" % (attrs, o, [col[n] for n in o])))
@@ -879,7 +934,7 @@ def _oracle_aut_g(g, nk=None, G=None):
         if sorted(n for o in wl for n in o) != sorted(G.nodes()):
             fails.append(dict(clause="wl-partition", detail="AutoEst.orbits is not a partition of the nodes: %r" % (wl,)))
         # orbit.py: purity of the estimate against the truth is 1.0 iff the truth refines ... (metrics recomputed directly)
-        if truth and attrs is None and len(comps) == 1:
+        if truth and attrs is None and eattrs is None and len(comps) == 1:
             oa = OrbitAccuracy(wl, [frozenset(o) for o in got]).compute()
             idx = {n: i for i, o in enumerate(wl) for n in o}
             ex = {n: i for i, o in enumerate(got) for n in o}
@@ -1037,6 +1092,8 @@ def oracle(case):
         return _oracle_dedup(case)[:3]
     if k == "hist":
         return _oracle_hist(case)[:3]
+    if k == "keys":
+        return _oracle_aut_g(case["g"], case["nk"], ek=case["ek"])[:3]
     if k == "prune":
         return _oracle_prune(case)[:3]
     raise AssertionError(k)
@@ -1111,6 +1168,8 @@ def nontrivial(case, obs):
     k = case["kind"]
     if k == "hist":
         return len(case["steps"]) >= 2
+    if k == "keys":
+        return obs[0][0] > 1 or any(len(o) >= 2 for o in obs[2][1])
     if k == "dedup":
         return any(r[0] == 0 and len(r[1]) < len(case["ms"]) for r in _dedup_results(obs)[:-1])
     obs = obs[0]
@@ -1125,7 +1184,7 @@ def nontrivial(case, obs):
 
 def distribution(cases, obss):
     d = dict(aut_nodes={}, aut_group_order={}, aut_components={}, dedup_list_len={}, dedup_dropped={}, dedup_errors=0,
-             prune_raw={}, prune_kept_fraction={}, prune_rule_aut={}, prune_every_raw_match_represented={}, hist_scripts={})
+             prune_raw={}, prune_kept_fraction={}, prune_rule_aut={}, prune_every_raw_match_represented={}, hist_scripts={}, key_configurations={})
 
     def bump(t, k):
         t[str(k)] = t.get(str(k), 0) + 1
@@ -1140,6 +1199,9 @@ def distribution(cases, obss):
             continue
         if c["kind"] == "hist":
             bump(d["hist_scripts"], "%s/%d steps" % (c["script"], len(c["steps"])))
+            continue
+        if c["kind"] == "keys":
+            bump(d["key_configurations"], "nodes=%r edges=%r" % (c["nk"], c["ek"]))
             continue
         full, o = o, o[0]
         if c["kind"] == "aut":
